@@ -17,7 +17,7 @@ Base == [id |-> "l", forms |-> <<>>, frames |-> <<>>,
          senses |-> << <<"w1-1", "w1", "s1", 1>>, <<"w2-1", "w2", "s2", 2>> >>,
          synsets |-> << <<"s1", "i1", "n", FALSE, <<"d1">>, <<>>>>,
                         <<"s2", "", "v", FALSE, <<"d2">>, <<>>>> >>,
-         srels |-> <<>>, ssrels |-> <<>>]
+         srels |-> <<>>, ssrels |-> <<>>, blank |-> <<"">>]
 Pool == { <<"s1", "hypernym", "s2", "~">>, <<"s2", "hyponym", "s1", "~">>,
           <<"s1", "similar", "s1", "~">>, <<"s1", "also", "zz", "~">>,
           <<"s2", "antonym", "s1", "~">>, <<"s1", "hypernym", "s2", "t">> }
